@@ -169,8 +169,25 @@ func TestC16(t *testing.T) {
 		// scheduler regimes: default GOMAXPROCS, 2 and 1 processors
 		jobs = append(jobs, job{"signer", f, min(sBatch, nSigner-f), 0, []int{0, 2, 1, 2}[i%4]})
 	}
+	// longest jobs first: single-processor batches take the most wall time (and the least CPU)
+	sort.SliceStable(jobs, func(i, j int) bool {
+		w := func(jb job) int {
+			switch {
+			case jb.stress > 0:
+				return 0
+			case jb.mode == "signer" && jb.procs == 1:
+				return 1
+			case jb.mode == "e2e":
+				return 2
+			case jb.procs == 2:
+				return 3
+			}
+			return 4
+		}
+		return w(jobs[i]) < w(jobs[j])
+	})
 	var wg sync.WaitGroup
-	sem := make(chan struct{}, r.Pick(5, 8))
+	sem := make(chan struct{}, r.Pick(7, 8))
 	var mu sync.Mutex
 	shimmed := map[string]bool{}
 	unshimmed := false
@@ -217,7 +234,10 @@ func TestC16(t *testing.T) {
 			var co childOut
 			b, err := os.ReadFile(filepath.Join(cr.Dir, "result.json"))
 			if err != nil || json.Unmarshal(b, &co) != nil {
-				if hf, e2 := os.ReadFile(filepath.Join(cr.Dir, "harness-failure.txt")); e2 == nil {
+				if _, e3 := os.Stat(cr.Output); e3 != nil {
+					// the child's work directory vanished: another `bin/check C16` was started concurrently and wiped build/run/C16
+					r.Inconclusive("run directory removed while the check was running (concurrent bin/check C16?): " + tag)
+				} else if hf, e2 := os.ReadFile(filepath.Join(cr.Dir, "harness-failure.txt")); e2 == nil {
 					r.Inconclusive("child harness failure (" + tag + "): " + string(hf))
 				} else if cr.Exit != 0 {
 					r.Violation("crash", fmt.Sprintf("child exited with %d without result", cr.Exit), map[string]any{"batch": tag, "output": tail(cr.Output, 80)})
